@@ -28,7 +28,18 @@ def run_k2(ctx, adapters, n_each, suite_prefix="K2"):
                 continue
             sw._apply_pending_bound_updates()
             a = lpdump.from_highs(sw.solver)
-            b = lpdump.from_driver(ctx.driver.call(mod.to_request(cfg)))
+            try:
+                b = lpdump.from_driver(ctx.driver.call(mod.to_request(cfg)))
+            except Infra as e:
+                if "driver error:" not in str(e):
+                    raise
+                # the model refuses a configuration the real constructor accepted (e.g. the data captured from the real run
+                # - trusted set, safe lists - is not what the model computes itself): model and code disagree
+                done += 1
+                ctx.rep.count(suite, cfg, nontrivial=True, hist=[name, "model refuses"])
+                ctx.disagree(suite, cfg, {"lp_lines": len(a)}, {"model_error": str(e)[:400]},
+                             note="the Lean model refuses a configuration the real constructor accepts")
+                continue
             done += 1
             feats = mod.features(cfg) if hasattr(mod, "features") else []
             ctx.rep.count(suite, cfg, nontrivial=len(a) > 8, hist=[name] + feats)
